@@ -631,7 +631,7 @@ def analyze(ctx, want):
                 # `prefix.chars().next_back().unwrap_or('\0')` analysed as the branch it is: on the path where there is no char in
                 # front of the new position the neutral char is stored
                 none_of = [c[1] for c, o in p.conds if c[0] == "isvar" and ((c[2] == "None" and o is True) or (c[2] == "Some" and o is False)) and S.mentions(c[1], is_back)]
-                neutral = S.vstr(lc).startswith("'\\x00'") or S.vstr(lc) in ("'\x00'", "'\\0'")
+                neutral = S.vstr(lc).startswith("'\\x00'") or S.vstr(lc) in ("'\x00'", "'\\0'") or lc == ("app", "Default::default", ())    # (char::default() is NUL)
                 if none_of and neutral:
                     src = none_of[-1]
                     s = "%s when %s is None" % (s, S.vstr(src)[:100])
